@@ -97,18 +97,9 @@ theorem mkLinear_den (k : Nat) (a b : Rat) (h1 : 1 ≤ k) (h2 : k < 4294967295) 
   · simp [Gen.all, IterSpec.linear, Den.elems]
   · simp [Gen.rem]
 
-/-- **a recognised `lin(…)` description is accepted and denotes its sequence** -/
-theorem accept_lin (s : List Char) (k : Nat) (a b : Rat) (den : Den)
-    (h : recognise s = some (.lin k a b)) (hd : (Desc.lin k a b).den = some den) :
-    ∃ g, create s = some g ∧ g.all = den.elems ∧ g.rem = g.all ∧ g.WF := by
-  -- what the description denotes
-  have hk : 1 ≤ k ∧ k < 4294967295 ∧ den = IterSpec.linear k a b := by
-    simp only [Desc.den] at hd
-    split at hd
-    · rename_i hc; cases hd; exact ⟨hc.1, hc.2, rfl⟩
-    · cases hd
-  obtain ⟨hk1, hk2, hden⟩ := hk
-  subst hden
+/-- a recognised `lin(…)` description is handed to `mpt_iterator_linear` with its count and bounds -/
+theorem lin_created (s : List Char) (k : Nat) (a b : Rat) (h : recognise s = some (.lin k a b)) :
+    create s = mkLinear (wrap32 (k + 1)) a b := by
   unfold recognise at h
   simp only [] at h
   split at h
@@ -149,7 +140,6 @@ theorem accept_lin (s : List Char) (k : Nat) (a b : Rat) (den : Den)
         have := linArgs_one a0 a1 b1 n k' oa oa1 ob1 hn
         simp only [List.append_assoc, List.cons_append, List.nil_append] at this ⊢
         rw [this]
-        exact mkLinear_den k' 0 1 hk1 hk2
     · -- count and bounds
       rename_i n ab hkw hf
       cases hn : strictCount n with
@@ -185,9 +175,23 @@ theorem accept_lin (s : List Char) (k : Nat) (a b : Rat) (den : Den)
             have := linArgs_two a0 a1 b1 a2 b2 n ta tb k' a' b' oa oa1 ob1 oa2 ob2 hn h1 h2
             simp only [List.append_assoc, List.cons_append, List.nil_append] at this ⊢
             rw [this]
-            exact mkLinear_den k' a' b' hk1 hk2
           | [], h, _ => simp at h
           | [_], h, _ => simp at h
           | _ :: _ :: _ :: _, h, _ => simp at h
+
+
+/-- **a recognised `lin(…)` description is accepted and denotes its sequence** -/
+theorem accept_lin (s : List Char) (k : Nat) (a b : Rat) (den : Den)
+    (h : recognise s = some (.lin k a b)) (hd : (Desc.lin k a b).den = some den) :
+    ∃ g, create s = some g ∧ g.all = den.elems ∧ g.rem = g.all ∧ g.WF := by
+  have hk : 1 ≤ k ∧ k < 4294967295 ∧ den = IterSpec.linear k a b := by
+    simp only [Desc.den] at hd
+    split at hd
+    · rename_i hc; cases hd; exact ⟨hc.1, hc.2, rfl⟩
+    · cases hd
+  obtain ⟨hk1, hk2, hden⟩ := hk
+  subst hden
+  rw [lin_created s k a b h]
+  exact mkLinear_den k a b hk1 hk2
 
 end Mpt.Iter
